@@ -528,3 +528,66 @@ class C05(Checker):
         n = len(ctx.world["register"]["ids"])
         rich = len(snap.channels) >= 2 or any(cs.obj.addressing == "Local" or cs.is_dmm for cs in snap.channels.values()) or bool(snap.flags["slm_targets"])
         return ctx.emu is not None and n >= 2 and rich and ctx.stats.get("instants_checked", 0) > 0
+
+
+# --------------------------------------------------------------------- C11H
+class C11H(Checker):
+    """History independence of the legacy emulator: after any reconfiguration
+    history, a run under a configuration without stochastic noise equals the
+    run of a fresh emulator given that configuration directly."""
+
+    def on_start(self, ctx):
+        self.eval_times = "Full"
+        self.init = None
+        self.added = False
+
+    def after_op(self, ctx, i, op, err):
+        from pulser_simulation import QutipEmulator
+
+        k = op["op"]
+        if err[0] is not None:
+            return
+        if k == "e_set_evaluation_times":
+            self.eval_times = op["value"]
+        elif k == "e_set_initial_state":
+            self.init = ctx.emu.initial_state
+        elif k == "e_add_config":
+            self.added = True
+        elif k in ("e_set_config", "e_reset_config"):
+            self.added = False
+        if k != "e_run" or self.added:
+            return
+        spec = ctx.cfg_spec
+        if not hamiltonian_noise_free(spec):
+            return
+        res = ctx.last_results
+        if res is None or not hasattr(res, "_results") and not hasattr(res, "states"):
+            return
+        try:
+            with warnings.catch_warnings():
+                warnings.simplefilter("ignore")
+                fresh = QutipEmulator.from_sequence(ctx.seq, sampling_rate=ctx.profile.get("sampling_rate", 1.0), config=build_simconfig(spec) if spec["noise"] else None, evaluation_times=self.eval_times)
+                if self.init is not None:
+                    fresh.set_initial_state(self.init)
+                np.random.seed(op["np_seed"])
+                fres = fresh.run()
+        except Exception as e:  # noqa: BLE001
+            ctx.viol("C11/history-fresh-refuses", i, f"a fresh emulator with the current configuration raised {type(e).__name__}: {str(e)[:120]} while the reconfigured one ran")
+            return
+        try:
+            a = [np.asarray(s.full()) for s in res.states]
+            b = [np.asarray(s.full()) for s in fres.states]
+        except Exception:  # noqa: BLE001 - NoisyResults have no states
+            return
+        if len(a) != len(b):
+            ctx.viol("C11/history-dependent", i, f"reconfigured emulator returned {len(a)} states, a fresh one {len(b)}")
+            return
+        dev = max(np.abs(x - y).max() for x, y in zip(a, b))
+        ctx.stats["history_runs_compared"] += 1
+        if dev > 2e-4:
+            ctx.viol("C11/history-dependent", i, f"after the reconfiguration history the emulator's states differ from a fresh emulator with the same configuration {spec} by {dev:.3g}")
+        elif spec["noise"]:
+            ctx.probe("history_compared_under_noise")
+
+    def nontrivial(self, ctx):
+        return ctx.stats.get("history_runs_compared", 0) >= 1 and ctx.stats.get("op/e_set_config/ok", 0) + ctx.stats.get("op/e_add_config/ok", 0) >= 2
